@@ -102,9 +102,18 @@ func VH_C12_CancelWait() {
 	repo, err := s.store.RepoGet(context.Background(), "a")
 	vh.Assert(err == nil, "C12.setup")
 	repo.Done()
-	release := vhHoldRepo(s, "a")
+	variant := vh.Choice("variant", 3)
+	vh.Tag("variant", []string{"token-held", "token-free-context-already-cancelled", "cancel-races-end-of-collection"}[variant])
+	release := func() {}
+	if variant != 1 {
+		release = vhHoldRepo(s, "a")
+	}
 	ctx := vhttp.NewCtx()
+	if variant == 1 {
+		ctx.Cancel()
+	}
 	done := false
+	released := false
 	code := 0
 	vh.Preempt(vh.Param("SWITCHES", 2))
 	vh.Go(func() {
@@ -114,11 +123,24 @@ func VH_C12_CancelWait() {
 		code = rec.Status()
 		done = true
 	})
-	vh.Go(func() { ctx.Cancel() })
+	if variant != 1 {
+		vh.Go(func() { ctx.Cancel() })
+	}
+	if variant == 2 {
+		vh.Go(func() { release(); released = true })
+	}
 	vh.Join()
 	vh.Assert(done, "C12.waiting-request-not-released-by-cancel")
 	vh.Assert(code >= 500 || code == 200, "C12.cancelled-status")
-	release()
+	if !released {
+		release()
+	}
+	// whatever the abandoned request did, the repository stays usable: a later
+	// request, a collection of the repository and Close all complete (a lost block
+	// token would leave this thread blocked: reported as a deadlock)
+	later := vhGetBlob(s, "a", digest.Canonical.FromBytes([]byte("{}")))
+	vh.Assert(later.Status() == 200, "C12.request-after-abandoned-request")
+	vh.Assert(s.Close() == nil, "C12.close-after-abandoned-request")
 	vh.Cover("C12.cancel-end")
 	_ = config.StoreDir
 }
